@@ -10,6 +10,7 @@ Fail-closed: anything that cannot be represented raises IRError.
 from __future__ import annotations
 
 import dataclasses
+import fractions
 import importlib
 import inspect
 import pkgutil
@@ -108,6 +109,37 @@ class PoolClass:
     """A plain (non-SymPy) class used as attribute value."""
 
 
+class ValueObj:
+    """A hand-written callable with VALUE semantics (__eq__/__hash__ on its field) and the default
+    `<... object at 0x...>` repr: usable as phsp_factor.  Module-level, so it pickles; a round trip or a
+    second construction gives a different object that is == to the first."""
+
+    def __init__(self, k):
+        self.k = fractions.Fraction(k)
+
+    def __eq__(self, other):
+        return type(other) is ValueObj and other.k == self.k
+
+    def __hash__(self):
+        return hash(("ValueObj", self.k))
+
+    def __call__(self, s, m1, m2):
+        return sp.Rational(self.k.numerator, self.k.denominator) * sp.sqrt(s - (m1 + m2) ** 2) / s
+
+
+def value_obj_name(v):
+    return f"uneval_ir.ValueObj({v.k.numerator}/{v.k.denominator})"
+
+
+def named_obj(name):
+    """object for an IR name: registry, ValueObj(p/q) (a NEW object each time), or an importable qualname"""
+    if name in NAMED:
+        return NAMED[name]
+    if name.startswith("uneval_ir.ValueObj("):
+        return ValueObj(fractions.Fraction(name[len("uneval_ir.ValueObj("):-1]))
+    return _import_obj(name)
+
+
 def make_closure(power):
     """Factory of phase-space-factor-like callables: DISTINCT function objects that share module and
     qualname (`make_closure.<locals>.rho`).  Equality of attributes is equality of Python objects."""
@@ -149,6 +181,8 @@ def attr_ir(v):
     for name, o in NAMED.items():
         if o is v:
             return ("o", name)
+    if isinstance(v, ValueObj):
+        return ("o", value_obj_name(v))
     try:
         hash(v)
     except TypeError:
@@ -183,9 +217,9 @@ def attr_py(a):
         return a[1]
     if k == "e":
         return from_ir(a[1])
-    if k == "o" and a[1] in NAMED:
-        return NAMED[a[1]]
-    if k in "co":
+    if k == "o":
+        return named_obj(a[1])
+    if k == "c":
         return _import_obj(a[1])
     if k == "u":
         return type(UNHASHABLE[a[1]])(UNHASHABLE[a[1]])
@@ -253,7 +287,7 @@ def from_ir(t):
         if h.startswith("fn:"):
             return sp.Function(h[3:])(*args)
         if h.startswith("call:"):
-            return (NAMED[h[5:]] if h[5:] in NAMED else _import_obj(h[5:]))(*args)
+            return named_obj(h[5:])(*args)
         if h.startswith("py:"):
             raise ModelError(h)
         return _import_obj(h)(*args)
